@@ -39,6 +39,9 @@ type c08Case struct {
 	// hex SHA-256 of its body in X-Amz-Content-Sha256, as a signing client sends it; a right payload
 	// hash does not make up for a wrong Content-MD5
 	PayloadHash bool `json:"payloadHash,omitempty"`
+	// Streamed (part with a digest fault or none): the part's bytes arrive aws-chunked; the
+	// Content-MD5 is that of the part's bytes, as for an object uploaded that way
+	Streamed bool `json:"streamed,omitempty"`
 }
 
 const c08Key = "dir/victim.bin"
@@ -345,6 +348,12 @@ func c08Build(cs c08Case, uploadID string, metaLimit int) (rq *s3x.Req, verdict 
 			verdict = either
 		}
 	}
+	if cs.Streamed && cs.Kind == "part" && (cs.Fault == "none" || strings.HasPrefix(cs.Fault, "md5-")) {
+		rq.Body = oracle.ChunkedEncode(payload, []int{cs.K%50 + 1, 33000})
+		addH("X-Amz-Content-Sha256", "STREAMING-AWS4-HMAC-SHA256-PAYLOAD")
+		addH("X-Amz-Decoded-Content-Length", fmt.Sprint(len(payload)))
+		return
+	}
 	if cs.PayloadHash && (cs.Kind == "put" || cs.Kind == "part") && (cs.Fault == "none" || strings.HasPrefix(cs.Fault, "md5-")) {
 		h := sha256.Sum256(rq.Body)
 		addH("X-Amz-Content-Sha256", hex.EncodeToString(h[:]))
@@ -557,7 +566,7 @@ func TestC08(t *testing.T) {
 	runProp(t, propDef{
 		ID:    "C08",
 		Level: "fault_enumeration",
-		Rule: "cases = (backend, integrity on/off, prior state in {absent, present with metadata, pending multipart upload}, upload kind in {PUT, aws-chunked PUT, upload-part, form POST}, fault class, body, parameter k, body fragmentation); " +
+		Rule: "cases = (backend, integrity on/off, prior state in {absent, present with metadata, pending multipart upload}, upload kind in {PUT, aws-chunked PUT, upload-part (plain or aws-chunked), form POST, copy}, fault class, body, parameter k, body fragmentation); " +
 			"every fault class of every upload kind is enumerated on every backend and prior state; the body-reader failure point k is enumerated for EVERY k of small bodies; rapid adds random bodies/parameters; " +
 			"oracle: accept/reject verdict from the statement + snapshot(before)==snapshot(after) of GET/HEAD (body, ETag, metadata), bucket listing and ListParts for every answer >= 400; " +
 			"non-trivial = a rejected upload over an existing object or pending upload; distinct by the full case",
@@ -598,6 +607,9 @@ func c08Run(t *testing.T, c *evid.Collector) {
 							all = append(all, c08Case{Backend: k, IntegrityOff: ioff, Prior: prior, Kind: kind, Fault: f, Body: b, K: 3})
 							if (kind == "put" || kind == "part") && (f == "none" || strings.HasPrefix(f, "md5-")) && prior != "upload" {
 								all = append(all, c08Case{Backend: k, IntegrityOff: ioff, Prior: prior, Kind: kind, Fault: f, Body: b, K: 3, PayloadHash: true})
+							}
+							if kind == "part" && (f == "none" || strings.HasPrefix(f, "md5-")) {
+								all = append(all, c08Case{Backend: k, IntegrityOff: ioff, Prior: prior, Kind: kind, Fault: f, Body: b, K: 3, Streamed: true})
 							}
 							if prior == "absent" && kind != "part" && bi == 0 && !ioff {
 								all = append(all, c08Case{Backend: k, Prior: prior, Kind: kind, Fault: f, Body: b, K: 3, FreshDir: true})
@@ -691,6 +703,7 @@ func c08Run(t *testing.T, c *evid.Collector) {
 		}
 		cs.FreshDir = cs.Prior == "absent" && rapid.Bool().Draw(rt, "freshdir")
 		cs.PayloadHash = rapid.IntRange(0, 2).Draw(rt, "payloadhash") == 0
+		cs.Streamed = kind == "part" && rapid.IntRange(0, 2).Draw(rt, "streamed") == 0
 		if one(cs, "random") {
 			rt.Fatalf("C08 violated")
 		}
